@@ -441,6 +441,12 @@ def k_shuffles(p):
     t2, ex = call(dsw.create_random_shuffles, k, seed)
     if (t1 != snap).any():
         return True, "the table returned by the first call was rewritten by the second call"
+    if ex is None and t2 is not None and np.shares_memory(t1, t2):
+        return True, "two calls return the same array object: a caller writing into one table changes the other"
+    t1[...] = -1                       # the caller scribbles into the table it was given
+    t5, ex5 = call(dsw.create_random_shuffles, k, seed)
+    if seed is not None and (ex5 is not None or (t5 != snap).any()):
+        return True, "after the caller wrote into a returned table, the same seed gives a different table"
     t1 = snap
     if seed is not None and (ex is not None or (t1 != t2).any()):
         return True, "same seed %r gave different tables from different global random states" % (seed,)
@@ -561,6 +567,8 @@ def k_repair(p):
     acc = np.array(rows, dtype=int)
     s, start = p["strand"], int(p["start"])
     chk = p.get("vt_check")
+    if p.get("warmup"):
+        call(dsw.repair_dna, "ACGTTGCA"[:2 * k + 2], np.array(induced(k, [True] * (4 ** k)), dtype=int), 0, k, has_indel=True)
     r, ex = call(dsw.repair_dna, s, acc, start, k, vt_check=chk, has_indel=bool(p.get("has_indel", True)), heap_size=p.get("heap_size", 1e9))
     if ex is not None:
         return True, "repair_dna(%r, start=%d) raised %s" % (s, start, ex)
@@ -873,6 +881,8 @@ def k_capacity(p):
     r, ex = call(dsw.approximate_capacity, acc, repeats=repeats)
     if ex is not None:
         return True, "approximate_capacity raised %s" % ex
+    if acc.tolist() != rows:
+        return True, "approximate_capacity modified its accessor argument"
     r = float(r)
     if r > 2 + 1e-9:
         return True, "capacity %r exceeds 2 bits per nucleotide" % r
